@@ -141,7 +141,12 @@ impl<'a> ItsWorld<'a> {
     pub fn next_message_id(&self) -> String {
         let n = self.msg_counter.get() + 1;
         self.msg_counter.set(n);
-        format!("msg-{}", n)
+        // every third id is as long as two transaction hashes (the gateway's approval key must cope with it)
+        if n % 3 == 0 {
+            format!("0x{}-{}", "ab".repeat(66), n)
+        } else {
+            format!("msg-{}", n)
+        }
     }
     /// honest gateway approval of a delivery addressed to ITS
     pub fn approve_for_its(&self, source_chain: &str, message_id: &str, source_address: &str, payload: &[u8]) -> Result<(), String> {
